@@ -12,7 +12,8 @@
 //   - ActivateVotingPeriod: the queue keys, and whether the inactive entry is removed unconditionally;
 //   - the expression that keys the custom-parameter lookups;
 //   - Tally: order of the early-return checks;
-//   - checkProposalMsgs (msg_server.go): which expression is compared between consecutive messages.
+//   - checkProposalMsgs (msg_server.go): which expression is compared between consecutive messages;
+//   - GetCustomMsgQuorum / GetCustomMsgVotingPeriod: stored field if an entry exists, default only if absent.
 //
 // Fails loudly when a shape it expects is gone.
 package main
@@ -535,13 +536,51 @@ func main() {
 		facts["sh_mixed_fold"] = b(fold)
 	}
 
+	// ---------------------------------------------------------------- GetCustomMsgQuorum / GetCustomMsgVotingPeriod
+	onlyAbsent := func(name, field, dflt string) bool {
+		fd := funcDecl(proposal, name)
+		nret := 0
+		ast.Inspect(fd.Body, func(x ast.Node) bool {
+			if _, ok := x.(*ast.ReturnStmt); ok {
+				nret++
+			}
+			return true
+		})
+		l := fd.Body.List
+		if len(l) != 3 || nret != 2 {
+			return false
+		}
+		a, ok := l[0].(*ast.AssignStmt)
+		if !ok || len(a.Lhs) != 1 || str(a.Rhs[0]) != "getProposalMsgType(proposal)" {
+			return false
+		}
+		key := str(a.Lhs[0])
+		f, ok := l[1].(*ast.IfStmt)
+		if !ok || f.Init == nil || f.Else != nil || len(f.Body.List) != 1 {
+			return false
+		}
+		in, ok := f.Init.(*ast.AssignStmt)
+		if !ok || len(in.Lhs) != 2 || str(in.Rhs[0]) != "keeper.GetCustomParams(ctx, "+key+")" || str(f.Cond) != str(in.Lhs[1]) {
+			return false
+		}
+		r1, ok := f.Body.List[0].(*ast.ReturnStmt)
+		if !ok || len(r1.Results) != 1 || str(r1.Results[0]) != str(in.Lhs[0])+"."+field {
+			return false
+		}
+		r2, ok := l[2].(*ast.ReturnStmt)
+		return ok && len(r2.Results) == 1 && str(r2.Results[0]) == dflt
+	}
+	facts["sh_quorum_default_only_absent"] = b(onlyAbsent("GetCustomMsgQuorum", "Quorum", "defaultQuorum"))
+	facts["sh_period_default_only_absent"] = b(onlyAbsent("GetCustomMsgVotingPeriod", "VotingPeriod", "defaultVotingPeriod"))
+
 	// ---------------------------------------------------------------- output
 	fields := []string{"sh_eb_order", "sh_payout_guard", "sh_dequeue_key_voting_end", "sh_cache_before_loop", "sh_cache_in_loop",
 		"sh_exec_on_cache", "sh_err_plain_assign", "sh_break_on_err", "sh_write_in_loop", "sh_write_in_ok_branch", "sh_write_elsewhere",
 		"sh_passed_in_ok_branch", "sh_failed_in_else_branch", "sh_conv_requeue_after_reassign", "sh_conv_period_default",
 		"sh_dep_order", "sh_dep_ok_returns_before_record",
 		"sh_act_inactive_remove_unconditional", "sh_act_inactive_key_deposit_end", "sh_act_active_key_voting_end",
-		"sh_egf_key", "sh_type_key", "sh_tally_checks", "sh_mixed_compare", "sh_mixed_fold"}
+		"sh_egf_key", "sh_type_key", "sh_tally_checks", "sh_mixed_compare", "sh_mixed_fold",
+		"sh_quorum_default_only_absent", "sh_period_default_only_absent"}
 	var sb strings.Builder
 	sb.WriteString("(* generated by harness/gen_c15 from x/gov/abci.go and x/gov/keeper/{deposit,proposal,tally}.go; do not edit *)\n")
 	sb.WriteString("From Coq Require Import ZArith List Bool.\nFrom FxV Require Import model.M_GovShape.\nImport ListNotations.\nOpen Scope Z_scope.\n\n")
